@@ -322,6 +322,7 @@ def _(c):
     c.raises("command_failed", EzspError)
     c.raises("timeout", asyncio.TimeoutError)
     c.raises("failed", zigpy.exceptions.RadioException)
+    c.raises("bring_up_refused", zigpy.exceptions.ControllerException)  # _ensure_network_running: networkInit refused
     c.raises("cancelled", asyncio.CancelledError)
     # node address pair: what the NCP reports for itself
     c.ensures(
